@@ -116,7 +116,8 @@ pub fn run(cfg: &Cfg) {
     }
     // reply constructors
     let senders: Vec<Option<String>> = vec![None, Some(":1.5".into()), Some("org.example.Caller".into()), Some(":1.4294967295".into())];
-    let serials: Vec<Option<u32>> = vec![None, Some(1), Some(2), Some(0x7fffffff), Some(u32::MAX)];
+    // values whose four bytes are pairwise different show a byte mix-up in either byte order
+    let serials: Vec<Option<u32>> = vec![None, Some(1), Some(2), Some(0x7fffffff), Some(u32::MAX), Some(256), Some(0x1234), Some(0x01020304), Some(70000), Some(0x80a1b2c3)];
     for sender in &senders {
         for serial in &serials {
             for kind in ["response", "error", "unknown_method", "invalid_args"] {
